@@ -260,7 +260,7 @@ func runC07(args []string) int {
 	// largest are left to the thorough tier
 	modelLimit, sizeLimit := 6000, 160000
 	if o.tier == "thorough" {
-		modelLimit, sizeLimit = 1<<22, 1<<30
+		modelLimit, sizeLimit = 30000, 1<<30
 	}
 	t0 := time.Now()
 	for i, p := range paths {
